@@ -83,7 +83,7 @@ func c03r1(c *Ctx, id string) {
 	for _, fw := range fws {
 		hop(fw, "ConsumeEvent", func(cc *ssa.CallCommon) bool { return isInvokeOf(cc, "Consumer", "ConsumeEvent") })
 	}
-	c.Floor(id, 12)
+	c.Floor(id, 9)
 }
 
 // handlerHarness evaluates a stream-observer handler over its predicate oracles.
@@ -457,5 +457,5 @@ func c03r5(c *Ctx, id string) {
 			c.Fail(id, "arm:"+t, 0, "listener arm for %s which the observer never emits", t)
 		}
 	}
-	c.Floor(id, 12)
+	c.Floor(id, 9)
 }
